@@ -13,6 +13,7 @@ func init() {
 		"(R1) pairing: in every method of the tree that assigns root, size or appendPath, each path from such an assignment to a nil return executes the persist call; "+
 		"(R2) save/load symmetry: the fields copied into the persisted record = the fields restored by the loader = {root, appendPath, size}, written and read under one key; "+
 		"(R3) node index symmetry: both directions written by the node writer are read back under the prefix they were written with, and a replace deletes a key of the family it wrote; "+
+		"(R5) the append path an accessor hands out uncopied is never rewritten in place (only replaced); "+
 		"(R4) derived state: any further field of the tree handle whose value is derived from size is recomputed or invalidated by every method that changes size (a lazily cached layer structure must not survive an append).",
 		runC11)
 }
@@ -182,6 +183,9 @@ func runC11(c *Ctx) {
 				}
 			}
 		}
+		// R5: the append path is handed out by AppendPath()/GenerateRightWitness as it is;
+		// Append must build a new one (an earlier result must stay the path of the earlier size)
+		checkExposedSliceImmutable(c, "C11.R5 handed-out-path-immutable", T_, "appendPath", methods)
 		c.Count("non-persisted mutable tree fields", extra)
 		c.Require("C11.R4 derived-state-invalidated", "tree handle fields", "-", "every mutable non-persisted field is covered (none today: the handle holds only root, appendPath, size, db)", true, fmt.Sprintf("%d such fields", extra))
 	}
